@@ -370,7 +370,7 @@ def load_known(pid):
 
 # ------------------------------------------------------------------ the proof half of a check
 
-def proof_stage(rep: Report, pid, gen_scripts, modules, driver=None, extra_sources=()):
+def proof_stage(rep: Report, pid, gen_scripts, modules, driver=None, extra_sources=(), extra_targets=()):
     """Steps 1–3. Returns dict(ok=bool, broken=[descriptions], gen=…)."""
     broken = []
     gen_info = {}
@@ -379,7 +379,7 @@ def proof_stage(rep: Report, pid, gen_scripts, modules, driver=None, extra_sourc
         gen_info[g] = r
         if not r.get('ok'):
             broken.append(f'translator {g}: {r.get("error")}')
-    targets = list(modules) + ([driver] if driver else [])
+    targets = list(modules) + ([driver] if driver else []) + list(extra_targets)
     t0 = time.time()
     ok, out = lake_build(targets)
     rep.note(f'lake build {" ".join(targets)}: {"ok" if ok else "FAILED"} ({time.time() - t0:.1f}s)')
@@ -433,7 +433,8 @@ def proof_stage(rep: Report, pid, gen_scripts, modules, driver=None, extra_sourc
 def standard_check(pid, argv, *, gen_scripts, modules, driver, extra_sources, harness_name,
                    harness_sources, harness_flags=None, harness_ldflags=None, gen_ops, monitor,
                    n_quick, n_thorough, trusted_base, assumptions, rule, nontrivial=None,
-                   corpus=None, level='proof', extra_stage=None, search_factor=8):
+                   corpus=None, level='proof', extra_stage=None, search_factor=8,
+                   driver_input=None, impl_view=None, harness_builder=None, extra_drivers=()):
     """Proof stage + kernel/op-sequence correspondence + monitors + search-on-break.
 
     gen_ops(rng, n) -> list of op lines (each line one independent case, or a sequence when the
@@ -447,10 +448,14 @@ def standard_check(pid, argv, *, gen_scripts, modules, driver, extra_sources, ha
     rep.cov['trusted_base'] = trusted_base
     rep.cov['rule'] = rule
     rep.assumptions = assumptions
-    ps = proof_stage(rep, pid, gen_scripts, modules, driver=driver, extra_sources=extra_sources)
+    ps = proof_stage(rep, pid, gen_scripts, modules, driver=driver, extra_sources=extra_sources,
+                     extra_targets=extra_drivers)
     broken = list(ps['broken'])
 
-    exe, log = build_exe(harness_name, harness_sources, harness_flags, harness_ldflags)
+    if harness_builder is not None:
+        exe, log = harness_builder()
+    else:
+        exe, log = build_exe(harness_name, harness_sources, harness_flags, harness_ldflags)
     if exe is None:
         broken.append('harness does not compile against the working tree: ' + log[-1500:])
     rng = random.Random(seed() * 1000003 + (17 if tier == 'thorough' else 0))
@@ -498,15 +503,17 @@ def standard_check(pid, argv, *, gen_scripts, modules, driver, extra_sources, ha
         rep.add_samples([{'op': o, 'impl': h} for o, h in list(zip(ops, hout))[:3]])
     dexe = driver_exe(driver) if driver else None
     if exe and dexe and os.path.exists(dexe):
-        dout, rc, err = run_lines(dexe, ops)
-        i = diff_streams(ops, hout, dout)
+        dops = ops if driver_input is None else [driver_input(o, h) for o, h in zip(ops, hout)]
+        dout, rc, err = run_lines(dexe, dops)
+        hview = hout if impl_view is None else [impl_view(h) for h in hout]
+        i = diff_streams(ops, hview, dout)
         rep.cov['traces_validated_against_impl'] = len(ops) if i is None else i
         if i is not None:
             broken.append(f'correspondence: model and implementation differ on op #{i}: '
-                          f'{ops[i][:200] if i < len(ops) else "<eof>"} impl={hout[i][:200] if i < len(hout) else None} '
+                          f'{ops[i][:200] if i < len(ops) else "<eof>"} impl={hview[i][:200] if i < len(hview) else None} '
                           f'model={dout[i][:200] if i < len(dout) else None}')
             rep.cov['first_disagreement'] = {'op': ops[i] if i < len(ops) else None,
-                                             'impl': hout[i] if i < len(hout) else None,
+                                             'impl': hview[i] if i < len(hview) else None,
                                              'model': dout[i] if i < len(dout) else None}
     elif driver:
         broken.append('driver executable missing')
